@@ -82,7 +82,8 @@ def rule_T2(facts, rep, c):
                                     ok, why = True, "generator-built format string \"%s\" over %s" % (lit_s, sorted(tags))
                     if ok:
                         break
-                rep.ob("C01.T2", "format-position:%s/%s!(#%s)" % (h["fn"], mac, name), ok,
+                ordinal = sum(1 for o in rep.obligations if o["key"].startswith("C01.T2/format-position:%s/%s!#" % (h["fn"], mac)))
+                rep.ob("C01.T2", "format-position:%s/%s!#%d" % (h["fn"], mac, ordinal), ok,
                        "#%s in format-string position of %s!: %s" % (name, mac, why) if ok else
                        "#%s is interpolated as the *format string* of %s! (%s): a value containing `{` or `}` yields code that does not compile" % (name, mac, why), node.get("sp"))
     rep.floor("C01.T2", "holes in format-string position", n, 2)
